@@ -105,3 +105,249 @@ Example C02_witness :
   write_quick None 3 root = Some quickprog /\
   compile {| capmap := None; quick := None |} (erase keep root) = (quickprog, []).
 Proof. vm_compute. repeat split; reflexivity. Qed.
+
+(* ================================================================================================
+   The string entry points (stringprefixfilter.go, regexp.go) — Model/Entry.v.
+   Proofs: Proofs/EntryBase.v, EntryFilter.v, EntryProofs.v, EntryExamples.v.
+   Leg c02-filter compares Model/Entry.v with the implementation on every run (filter choice, every
+   filter answer on all short byte strings incl. invalid UTF-8, the glue of each entry point).
+
+   b : byte string; runes_of b = []rune(b) (invalid bytes decode to U+FFFD one byte at a time);
+   boundary b k = byte offset of rune k.  Rune positions are nat.
+   ================================================================================================ *)
+From Verif Require Import Base.Utf8 Gen.CodeGen Model.Offsets Model.Entry Proofs.Utf8Proofs
+  Proofs.EntryBase Proofs.EntryFilter Proofs.EntryProofs Proofs.EntryBoundary Proofs.EntryExamples.
+
+(* (iii) byte-level search agrees with the rune-level fact.
+   Self-synchronisation: a decoded rune other than U+FFFD stands in the string as its own UTF-8
+   encoding, at the byte offset of its rune position (U+FFFD may stand for an invalid byte instead —
+   this is why literals containing U+FFFD are refused). *)
+Theorem C02_decoded_rune_is_its_encoding :
+  forall (s : list Z) (k : nat) (c : Z) (w : nat),
+    nth_error (decode s) k = Some (c, w) -> c <> rune_error ->
+    valid_rune c = true /\ Z.of_nat w = rune_len c /\
+    skipn (boundary s k) s = encode c ++ skipn (boundary s (S k)) s.
+Proof. exact enb_rune_bytes. Qed.
+Print Assumptions C02_decoded_rune_is_its_encoding.
+
+(* A literal fact in C04's form ("the re-encoded text from rune q on starts with the bytes P", cf.
+   C04_find_prefix_sound) for a literal without U+FFFD is a byte occurrence of P in the RAW string
+   at the byte offset of q: what strings.Index looks for. *)
+Theorem C02_literal_fact_is_raw_byte_occurrence :
+  forall (b : list Z) (q : nat) (P : list Z),
+    en_contains_rune P rune_error = false ->
+    (exists rest, encode_string (skipn q (runes_of b)) = P ++ rest) ->
+    en_has_prefix (skipn (boundary b q) b) P = true.
+Proof. exact enf_lit_bytes. Qed.
+Print Assumptions C02_literal_fact_is_raw_byte_occurrence.
+
+(* ... and the ordinal-ignore-case fact for an ASCII literal is what IndexStringIgnoreCaseASCII compares *)
+Theorem C02_ignore_case_fact_is_raw_byte_occurrence :
+  forall (b : list Z) (P : list Z) (q : nat),
+    Forall (fun x => 0 <= x < 128) P ->
+    en_equal_fold_prefix (skipn q (runes_of b)) P = true ->
+    en_equal_fold_prefix (skipn (boundary b q) b) P = true.
+Proof. exact enf_ci_bytes. Qed.
+Print Assumptions C02_ignore_case_fact_is_raw_byte_occurrence.
+
+(* utf8.DecodeLastRuneInString on the prefix ending at a rune boundary steps back exactly one rune of
+   the FORWARD decoding, also through invalid bytes (stringFixedDistanceCandidateStart relies on it) *)
+Theorem C02_backward_decoding_follows_forward_boundaries :
+  forall (b : list Z) (k : nat) (c : Z) (w : nat),
+    nth_error (decode b) k = Some (c, w) ->
+    snd (en_decode_last_rune (firstn (boundary b (S k)) b)) = Z.of_nat w.
+Proof. exact enf_dlr_step. Qed.
+Print Assumptions C02_backward_decoding_follows_forward_boundaries.
+
+(* (i)+(ii) Every filter closure is SOUND and TRANSPARENT.  [enf_ok f]: what the constructor
+   guarantees about the needle (no U+FFFD, ASCII where required, distance >= 0, ...); [enf_fact f r q]:
+   the compile-time fact f was built from holds at rune position q.  Called at the byte offset of rune
+   k0 the closure always answers (no fault, the loops terminate within len+1 turns), and
+   - "no candidate" : no position q >= k0 satisfies the fact,
+   - candidate c     : every position q >= k0 satisfying the fact starts at byte c or later.
+   All seven closures: Index / IgnoreCase prefix, prefix list (fallback and ASCII string set),
+   fixed-distance set / char / string, literal after loop. *)
+Theorem C02_prefilter_sound_and_transparent :
+  forall f : en_filter, enf_ok f ->
+  forall (b : list Z) (k0 : nat), (k0 <= length (decode b))%nat ->
+    exists c ok, en_run_filter f b (Z.of_nat (boundary b k0)) = Ok (c, ok) /\
+      (ok = false -> forall q, (k0 <= q <= length (decode b))%nat -> ~ enf_fact f (runes_of b) q) /\
+      (ok = true -> forall q, (k0 <= q <= length (decode b))%nat -> enf_fact f (runes_of b) q ->
+                    c <= Z.of_nat (boundary b q)).
+Proof. exact enf_filter_sound. Qed.
+Print Assumptions C02_prefilter_sound_and_transparent.
+
+(* newStringPrefixFilter builds a filter only for a left-to-right program WITHOUT a Start (\G)
+   instruction, the filter satisfies enf_ok, and the facts published in the FindOptimizations record
+   (enp_code_fact, by FindMode: leading prefix / prefixes, ordinal-ignore-case prefix(es),
+   fixed-distance set / char / string, literal after loop, and MinRequiredLength) are the fact of
+   the filter it chose. *)
+Theorem C02_constructor_guarantees :
+  forall (c : en_code) (f : en_filter),
+    en_new_filter c = Ok (Some f) ->
+    cd_rtl c = false /\
+    en_has_opcode (S (length (cd_codes c))) (cd_codes c) G_Start = Ok false /\
+    enf_ok f /\
+    exists o, cd_opts c = Some o /\ forall r q, enp_code_fact o r q -> enf_fact f r q.
+Proof. exact enp_constructor. Qed.
+Print Assumptions C02_constructor_guarantees.
+
+(* (ii) a candidate answered by a filter the constructor built is the byte offset of a rune at or after
+   the start: the defensive validation of findStringPrefixCandidate (candidate < startAt, > len, not
+   on a boundary -> fall back to startAt) never fires, and the unvalidated use in MatchString /
+   matchStringAt decodes the candidate to a rune index. *)
+Theorem C02_candidate_is_rune_boundary_at_or_after_start :
+  forall (c : en_code) (f : en_filter),
+    en_new_filter c = Ok (Some f) ->
+    forall (b : list Z) (k0 : nat) (cand : Z), (k0 <= length (decode b))%nat ->
+      en_run_filter f b (Z.of_nat (boundary b k0)) = Ok (cand, true) ->
+      exists k', (k0 <= k' <= length (decode b))%nat /\ cand = Z.of_nat (boundary b k').
+Proof. exact enf_constructor_candidates_on_boundaries. Qed.
+Print Assumptions C02_candidate_is_rune_boundary_at_or_after_start.
+
+(* findStringPrefixCandidate (the filter call + its validation) from the byte offset of rune k:
+   "no candidate" implies the engine finds nothing from k; otherwise the candidate is the byte offset
+   of a rune k' >= k from which the engine finds exactly what it finds from k.
+   [enp_flt_hyp]: right-to-left (filter ignored), or no filter, or a filter with enf_ok, its fact at
+   every match start, and an engine that is start independent (enp_start_indep). *)
+Theorem C02_candidate_sound_and_transparent :
+  forall (M : Type) (m_index : M -> Z) (search : list Z -> Z -> option M) (rtl : bool) (flt : option en_filter)
+         (b : list Z) (k : nat),
+    enp_in_range M m_index search -> enp_flt_hyp M m_index search rtl flt -> (k <= length (decode b))%nat ->
+    (en_prefix_candidate rtl flt b (Z.of_nat (boundary b k)) = Ok (0, false) /\
+     search (runes_of b) (Z.of_nat k) = None) \/
+    (exists k', (k <= k' <= length (decode b))%nat /\
+       en_prefix_candidate rtl flt b (Z.of_nat (boundary b k)) = Ok (Z.of_nat (boundary b k'), true) /\
+       search (runes_of b) (Z.of_nat k') = search (runes_of b) (Z.of_nat k)).
+Proof. exact enp_prefix_candidate_sound. Qed.
+Print Assumptions C02_candidate_sound_and_transparent.
+
+(* HEADLINE.  For every program data the constructor accepts or refuses (flt is whatever it returns),
+   an abstract engine [search] (Runner.scan on a fresh scan; C01/C03 are about it) with
+     enp_in_range      a match found from s starts in [s, len];
+     enp_quick_agrees  the bool-only program answers "is there a match" (C02_quick_program_sound);
+     start independence, required ONLY when the program has no Start instruction (the constructor's
+                       \G exclusion; C02_start_anchor_exclusion_needed shows it cannot be dropped);
+     the published facts at every match start, required only when a filter was built;
+   every string entry point equals the rune entry point on the decoded input:
+   FindStringMatch = FindRunesMatch; FindStringMatchStartingAt at the byte offset of rune k =
+   FindRunesMatchStartingAt k; a negative start means the default start in both; a start past the end /
+   inside a rune is the documented error; MatchString = MatchRunes.
+   (The Match's byte indices are the image of the rune indices under the index map: C08.) *)
+Theorem C02_string_entry_equals_rune_entry :
+  forall (M : Type) (m_index : M -> Z) (search : list Z -> Z -> option M) (search_quick : list Z -> Z -> bool)
+         (c : en_code) (flt : option en_filter),
+    en_new_filter c = Ok flt ->
+    enp_in_range M m_index search ->
+    enp_quick_agrees M search search_quick ->
+    (en_has_opcode (S (length (cd_codes c))) (cd_codes c) G_Start = Ok false -> enp_start_indep M m_index search) ->
+    (forall o f, cd_opts c = Some o -> flt = Some f ->
+       forall b q, enp_starts M m_index search (runes_of b) q -> enp_code_fact o (runes_of b) q) ->
+    forall b : list Z,
+      let rtl := cd_rtl c in
+      let r := runes_of b in
+      en_find_string_match M search rtl flt b = en_find_runes_match M search rtl r /\
+      (forall k, (k <= length r)%nat ->
+         en_find_string_match_starting_at M search rtl flt b (Z.of_nat (boundary b k)) =
+         en_find_runes_match_starting_at M search rtl r (Z.of_nat k)) /\
+      (forall i, i < 0 ->
+         en_find_string_match_starting_at M search rtl flt b i = en_find_runes_match_starting_at M search rtl r i) /\
+      (forall i, zlen b < i -> en_find_string_match_starting_at M search rtl flt b i = Err ERR_START_TOO_LARGE) /\
+      (forall i, 0 <= i <= zlen b -> en_is_boundary b i = false ->
+         en_find_string_match_starting_at M search rtl flt b i = Err ERR_START_NOT_BOUNDARY) /\
+      en_match_string search_quick rtl flt b = en_match_runes search_quick rtl r.
+Proof. exact enp_string_entry_equals_rune_entry. Qed.
+Print Assumptions C02_string_entry_equals_rune_entry.
+
+(* FindAllStringIndex up to its first scan: the rune slice is the decoded input and the first scan
+   starts where it finds what a scan from the default start (0, or the end when right-to-left) finds;
+   "return nil" exactly when that scan finds nothing.  The rest of the iteration depends only on
+   that match (C07). *)
+Theorem C02_find_all_string_first_scan :
+  forall (M : Type) (m_index : M -> Z) (search : list Z -> Z -> option M) (rtl : bool) (flt : option en_filter)
+         (b : list Z),
+    enp_in_range M m_index search -> enp_flt_hyp M m_index search rtl flt ->
+    (en_find_all_string_start rtl flt b = Ok None /\
+     search (runes_of b) (Z.of_nat (enp_default_start rtl b)) = None) \/
+    (exists k', (k' <= length (decode b))%nat /\
+       en_find_all_string_start rtl flt b = Ok (Some (runes_of b, Z.of_nat k')) /\
+       search (runes_of b) (Z.of_nat k') = search (runes_of b) (Z.of_nat (enp_default_start rtl b))).
+Proof. exact enp_find_all_string_start. Qed.
+Print Assumptions C02_find_all_string_first_scan.
+
+(* Where the two engine hypotheses come from: ANY scan "attempt at s, s+1, ..., len, first success"
+   whose single attempts do not read the scan start (the only channel is Runtextstart, read by the
+   Start instruction alone) is in range and start independent.  The accelerator-free scan has this
+   shape (Model/Scan.naive_scan) and C03 proves the accelerated scan equal to it. *)
+Theorem C02_scan_of_start_blind_attempts_is_start_independent :
+  forall (M : Type) (m_index : M -> Z) (attempt : list Z -> nat -> option M),
+    (forall r q m, attempt r q = Some m -> m_index m = Z.of_nat q) ->
+    enp_in_range M m_index (enp_scan M attempt) /\ enp_start_indep M m_index (enp_scan M attempt).
+Proof. exact enp_scan_engine. Qed.
+Print Assumptions C02_scan_of_start_blind_attempts_is_start_independent.
+
+(* Each exclusion of the constructor is needed.
+   \G: the engine of (?=\G)abc (a match only AT the scan start) is in range and satisfies the fact of
+   the prefix filter "abc" at every match start, the filter satisfies enf_ok — only start
+   independence fails — and on "xabc" FindStringMatch = match at 1, FindRunesMatch = no match. *)
+Theorem C02_start_anchor_exclusion_needed :
+  enp_in_range Z enx_index enx_search_G /\
+  enf_ok (FPrefix enx_abc false 3) /\
+  (forall b q, enp_starts Z enx_index enx_search_G (runes_of b) q -> enf_fact (FPrefix enx_abc false 3) (runes_of b) q) /\
+  ~ enp_start_indep Z enx_index enx_search_G /\
+  let b := [120; 97; 98; 99] in
+  en_find_string_match Z enx_search_G false enx_flt_abc b = Ok (Some 1) /\
+  en_find_runes_match Z enx_search_G false (runes_of b) = Ok None.
+Proof. exact enx_start_indep_needed. Qed.
+Print Assumptions C02_start_anchor_exclusion_needed.
+
+(* U+FFFD: the engine of \x{fffd} satisfies every engine hypothesis and the literal fact EF BF BD; the
+   filter searching those bytes (enf_ok fails: the needle contains U+FFFD) rejects "\xff", which
+   decodes to U+FFFD and matches. *)
+Theorem C02_fffd_guard_needed :
+  enp_in_range Z enx_index (enx_scan enx_p_fffd) /\
+  enp_start_indep Z enx_index (enx_scan enx_p_fffd) /\
+  (forall b q, enp_starts Z enx_index (enx_scan enx_p_fffd) (runes_of b) q ->
+               enf_fact (FPrefix enx_fffd_bytes false 1) (runes_of b) q) /\
+  ~ enf_ok (FPrefix enx_fffd_bytes false 1) /\
+  let b := [255] in
+  en_find_string_match Z (enx_scan enx_p_fffd) false (Some (FPrefix enx_fffd_bytes false 1)) b = Ok None /\
+  en_find_runes_match Z (enx_scan enx_p_fffd) false (runes_of b) = Ok (Some 0).
+Proof. exact enx_fffd_guard_needed. Qed.
+Print Assumptions C02_fffd_guard_needed.
+
+(* Non-vacuity.  The constructor refuses a program with a Start instruction, a literal containing
+   U+FFFD, a right-to-left program ... *)
+Example C02_constructor_declines :
+  en_new_filter {| cd_rtl := false; cd_codes := [23; 6; 19; 12; 0; 40]; cd_opts := cd_opts enx_code_abc |} = Ok None /\
+  en_new_filter {| cd_rtl := false; cd_codes := [23; 5; 12; 0; 40];
+                   cd_opts := Some {| fo_mode := MODE_LeadingString_LeftToRight; fo_min := 2; fo_prefix := 97 :: enx_fffd_bytes;
+                                      fo_prefixes := []; fo_lit_s := []; fo_lit_c := 0; fo_lit_dist := 0; fo_sets := [];
+                                      fo_lal := None |} |} = Ok None /\
+  en_new_filter {| cd_rtl := true; cd_codes := cd_codes enx_code_abc; cd_opts := cd_opts enx_code_abc |} = Ok None.
+Proof. vm_compute. repeat split; reflexivity. Qed.
+
+(* ... and all hypotheses of the headline theorem hold together for the pattern abc (program
+   Lazybranch; Multi "abc"; Stop, mode LeadingString_LeftToRight, prefix "abc", minimum 3) with the
+   engine "first position where abc stands" ... *)
+Example C02_entry_hypotheses_met :
+  en_new_filter enx_code_abc = Ok enx_flt_abc /\
+  enp_in_range Z enx_index (enx_scan enx_p_abc) /\
+  enp_quick_agrees Z (enx_scan enx_p_abc) (enx_quick enx_p_abc) /\
+  (en_has_opcode (S (length (cd_codes enx_code_abc))) (cd_codes enx_code_abc) G_Start = Ok false ->
+   enp_start_indep Z enx_index (enx_scan enx_p_abc)) /\
+  (forall o f, cd_opts enx_code_abc = Some o -> enx_flt_abc = Some f ->
+     forall b q, enp_starts Z enx_index (enx_scan enx_p_abc) (runes_of b) q -> enp_code_fact o (runes_of b) q).
+Proof. exact enx_abc_hypotheses. Qed.
+
+(* ... where on "xéabc" the filter answers byte 3 (= rune 2), both entry points report the match at
+   rune 2, byte 2 (inside é) is refused and byte 4 finds nothing. *)
+Example C02_entry_witness :
+  let b := [120; 195; 169; 97; 98; 99] in
+  en_run_filter (FPrefix enx_abc false 3) b 0 = Ok (3, true) /\
+  en_find_string_match Z (enx_scan enx_p_abc) false enx_flt_abc b = Ok (Some 2) /\
+  en_find_runes_match Z (enx_scan enx_p_abc) false (runes_of b) = Ok (Some 2) /\
+  en_match_string (enx_quick enx_p_abc) false enx_flt_abc b = Ok true /\
+  en_find_string_match_starting_at Z (enx_scan enx_p_abc) false enx_flt_abc b 2 = Err ERR_START_NOT_BOUNDARY /\
+  en_find_string_match_starting_at Z (enx_scan enx_p_abc) false enx_flt_abc b 4 = Ok None.
+Proof. vm_compute. repeat split; reflexivity. Qed.
